@@ -159,6 +159,8 @@ func newPlan(quick bool) *plan {
 			full = append(full, wd{w, d})
 		}
 	}
+	// a depth limit beyond the depth of every table (what lies four and five levels down is laid out too)
+	full = append(full, wd{80, 6}, wd{200, 6})
 	mk := func(set []wd) (out []optVec) {
 		for _, x := range set {
 			for _, al := range []bool{false, true} {
